@@ -49,19 +49,23 @@ ClassOf(cfg) == IF AnyValue(cfg, ValNewline) THEN "newline-in-value"
 Verdict(ev) ==
   IF ev.e = "Parse" THEN
     IF ev.ret # "ok" THEN CrashVerdict(ev, ev.text)
-    ELSE IF ev.ok /\ [st |-> "Done", cfg |-> ev.cfg] \in {Parse(ev.text), Pinned!Parse(ev.text)} THEN "ok"
+    ELSE IF ~ev.ok THEN "bad:parse-drift"
+    ELSE IF [st |-> "Done", cfg |-> ev.cfg] = Parse(ev.text) THEN "ok"             \* (the second transcription is
+    ELSE IF [st |-> "Done", cfg |-> ev.cfg] = Pinned!Parse(ev.text) THEN "ok"      \*  evaluated only when needed)
     ELSE "bad:parse-drift"
   ELSE IF ev.e = "RoundTrip" THEN
     IF ev.ret # "ok" THEN CrashVerdict(ev, ev.text)
     ELSE IF ~ev.ok1 \/ ~ev.ok2 \/ ev.cfg2 # ev.cfg1 THEN "bad:roundtrip-" \o ClassOf(ev.cfg1)
-    ELSE IF ev.ptoks \notin {PrintCfg(ev.cfg1), Pinned!PrintCfg(ev.cfg1)} THEN "bad:print-drift"
-    ELSE "ok"
+    ELSE IF ev.ptoks = PrintCfg(ev.cfg1) THEN "ok"
+    ELSE IF ev.ptoks = Pinned!PrintCfg(ev.cfg1) THEN "ok"
+    ELSE "bad:print-drift"
   ELSE
     IF ev.ret # "ok" THEN "bad:crash-" \o ev.ret \o "-printparse"
     ELSE IF ~DocCfg(ev.cfg) THEN "bad:case-outside-documented-configurations"
     ELSE IF ~ev.ok2 \/ ev.cfg2 # ev.cfg THEN "bad:printparse"
-    ELSE IF ev.ptoks \notin {PrintCfg(ev.cfg), Pinned!PrintCfg(ev.cfg)} THEN "bad:print-drift"
-    ELSE "ok"
+    ELSE IF ev.ptoks = PrintCfg(ev.cfg) THEN "ok"
+    ELSE IF ev.ptoks = Pinned!PrintCfg(ev.cfg) THEN "ok"
+    ELSE "bad:print-drift"
 
 TInit == l = 1 /\ verdict = "ok" /\ text = <<>> /\ conf = <<>>
 TStep == /\ T[l].e \in {"Parse", "RoundTrip", "PrintParse"}
